@@ -577,6 +577,26 @@ def exec_step(step, sess, chains, audit):
     elif op == 'rename_profile_stop':
         sys.setprofile(None)
         obs['rename_returns'] = sess.get('_rename_state', {}).get('n', 0)
+    elif op == 'poison_params':
+        # code that ran earlier in this process modified, in place, the (mutable) parameter values its tasks were given
+        def poison(v):
+            if isinstance(v, list):
+                for x in v:
+                    poison(x)
+                v.append('POISON')
+            elif isinstance(v, dict):
+                for x in list(v.values()):
+                    poison(x)
+                v['POISON'] = 1
+        n_ = 0
+        for t_ in get_chain().tasks.values():
+            for p_ in t_.params._parameters.values():
+                try:
+                    poison(p_.value)
+                    n_ += 1
+                except Exception:
+                    pass
+        obs['poisoned'] = n_
     elif op == 'redefine':
         # the user edits the task declarations and runs the definitions again in the same interpreter (notebook cell / importlib.reload):
         # the classes keep their module and qualified names
